@@ -10,6 +10,7 @@ CONSTANTS
   Sessions = {}
   Names = {}
   Edits = {}
+  ExtraBits = {}
   MaxOps = 0
 VIEW TraceView
 CONSTRAINT HighWater
